@@ -12,5 +12,7 @@ from vlib import common
 common.build_driver()
 common.build_harness()
 common.build_harness('checked')
+from vlib.props import c18
+c18.build_alloc()
 print("setup ok")
 PY
